@@ -13,7 +13,8 @@ RULE = ("metamorphic pairs of generated problems differing only in the nominals 
         "2^-10 .. 2^10 and non-dyadic): rows g, objective f at corresponding decision vectors "
         "X' = X*N/N' and the physical boxes N*lbx, N*ubx must coincide; each problem is also compared "
         "with the Gallina model. non-trivial = nominals differing by >= 8x on a problem with bounds and "
-        "history; distinct = abstracted shapes")
+        "history; distinct = abstracted shapes"
+        ' Also: vector path variables with per-component nominals, goal-function nominals on real goal-programming runs (relaxed minimisation goals), state_at(scaled) vs state_at() in both call orders, simulation models with a user extra variable with nominal next to a multi-step delay buffer.')
 MODELLED = "use of variable_nominal throughout transcribe() and _collint_get_lbx_ubx / initial-derivative nominals"
 NOT_MODELLED = "goal function nominals (C03/C17 harness), solver behaviour under rescaling, simulation (C09)"
 ASSUMPTIONS = []
